@@ -79,3 +79,17 @@ Theorem C02_featuretype_filter : forall d dir id level ft r, In r (relation d di
   In r (relation d dir id level FNone None false) /\ ft_query ft r = true.
 Proof. exact l_ft_filter. Qed.
 Print Assumptions C02_featuretype_filter.
+
+(* "... in create_db and in update alike": the relations step is exact on EVERY stored state, also when level-2 rows
+   of an earlier import are already in the table: what it adds at level 2 are exactly the compositions of two
+   level-1 rows that start at a stored feature (so a great-grandchild is never recorded as a grandchild) *)
+Theorem C02_relations_step_exact : forall st,
+  (forall r, In r (s_rows st) -> id_clean (r_id r) = true) ->
+  (forall x, In x (s_rels st) -> id_clean (rel_child x) = true) ->
+  exists st', update_relations_gff st = Ok st' /\ s_rows st' = s_rows st /\ s_dups st' = s_dups st /\ s_auto st' = s_auto st /\
+    forall x, In x (s_rels st') <->
+      In x (s_rels st) \/
+      (rel_level x = 2 /\ (exists r, In r (s_rows st) /\ r_id r = rel_parent x) /\
+       exists y, In (mkRel (rel_parent x) y 1) (s_rels st) /\ In (mkRel y (rel_child x) 1) (s_rels st)).
+Proof. exact l_relations_step. Qed.
+Print Assumptions C02_relations_step_exact.
